@@ -251,10 +251,21 @@ unsigned int irc_pton(irc_inaddr *addr, unsigned int *bits, const char *input, i
             goto finish;
         }
         /* All eight groups were ended by a ':' (the last one by the
-         * second ':' of a trailing "::"): still a plain address.
+         * second ':' of a trailing "::"): still a plain address,
+         * unless a prefix length follows.
          */
-        if (bits)
-            *bits = 128;
+        if (bits) {
+            unsigned int len = 128;
+
+            if (input[pos] == '/' && isdigit(input[pos + 1])) {
+                for (len = 0; isdigit(input[++pos]); ) {
+                    len = len * 10 + input[pos] - '0';
+                    if (len > 128)
+                        return 0;
+                }
+            }
+            *bits = len;
+        }
     finish:
         /* Shift stuff after "::" up and fill middle with zeros. */
         if (cpos < 8) {
